@@ -13,7 +13,7 @@ Binding, for every CASE (layout, request form, listing) TLC prints:
         vs the spec's reference            -> validity of PyScan/PyWalk   (exit 2 when different)
    spec clauses evaluated by this driver on the spec's own tree vs the spec's verdict
                                            -> validity of the evaluator   (exit 2 when different)
-   real Griffe (os.walk / Path.iterdir wrapped to report TLC's order) vs the clauses   -> VIOLATION
+   real Griffe (os.scandir / os.listdir wrapped to report TLC's order) vs the clauses   -> VIOLATION
    real Griffe across listings / request forms of one layout (tree + as_json)          -> VIOLATION
    real Griffe vs the spec's Impl tree     -> model drift note (and `as_model` in the signature)
 """
@@ -386,6 +386,10 @@ def check_group(res: dict, group: dict, lay: fs.Layout, reals: list, o: dict):
         if outcome not in ("ok", "ModuleNotFoundError", "KeyError"):
             res["violations"].append((dict(sigbase, clause="total", predicted=False, as_model=False), f"load raised/ended with {outcome} {real.get('detail', '')} on {ident(case)}", ident_case))
             continue
+        if real.get("not_injected"):
+            res["stats"]["listing-not-injected"] += 1
+            if len(res["drift_examples"]) < 3:
+                res["drift_examples"].append(f"listing order not injected for {real['not_injected']} ({ident(case)})")
         as_model = outcome == spec_out and strip(tree) == strip(spec_tree)
         if not as_model:
             res["drift"] += 1
@@ -574,6 +578,8 @@ def main(tier: str, replay: str | None = None):
     st = totals["stats"]
     run.extra["stats"] = dict(st)
     run.extra["drift"] = totals["drift"]
+    if st["listing-not-injected"]:
+        run.note(f"{st['listing-not-injected']} case(s) where a directory the finder read was listed by none of the wrapped primitives (os.scandir, os.listdir): TLC's order was not injected there")
     if totals["drift"]:
         run.note(f"{totals['drift']} case(s) where the real tree differs from the spec's Impl tree (model drift), e.g. {totals['drift_examples'][:2]}")
     if st["clean-layouts"] < 100 or st["walker-nonempty"] < 100 or st["non-canonical-listing"] < 100 or not (st["req:name"] and st["req:path"] and st["req:dotted"]):
